@@ -27,6 +27,10 @@ theorem tstep_enabled {t : Tid} {g : Glob} {th : Thread} (hT : TI kd res t g th)
     right; obtain ⟨_, _, ⟨i, hi, _⟩, hsn⟩ := hp; simp [hi, hsn]
   case lInit =>
     right; obtain ⟨_, _, i, hi⟩ := hp; simp [hi]
+  case xRelX => right; simp
+  case lAlloc => right; split <;> simp
+  case gAlloc => right; split <;> (try split) <;> simp
+  case fAlloc => right; split <;> (try split) <;> (try split) <;> simp
   all_goals first
     | (right; simp; done)
     | (by_cases hlk : g.lock = none <;> simp [hlk]; done)
@@ -48,17 +52,42 @@ theorem fresh_frame {t : Tid} {g g' : Glob} {th th' : Thread}
     g'.weak = g.weak ∧ g'.strong = g.strong ∧ g'.cap = g.cap ∧ g'.lock = g.lock ∧ g'.held = g.held ∧
     g'.epoch = g.epoch ∧ g'.single = g.single := by
   rcases hpc with hpc | hpc | hpc <;> simp only [tstep, hpc] at h
-  · split at h <;> simp only [Option.some.injEq, Prod.mk.injEq] at h <;> obtain ⟨rfl, rfl⟩ := h <;> simp
+  · split at h
+    · simp only [Option.some.injEq, Prod.mk.injEq] at h; obtain ⟨rfl, rfl⟩ := h; simp
+    · split at h
+      · simp only [Option.some.injEq, Prod.mk.injEq] at h; obtain ⟨rfl, rfl⟩ := h; simp
+      · split at h <;> simp only [Option.some.injEq, Prod.mk.injEq] at h <;> obtain ⟨rfl, rfl⟩ := h <;> simp
   · split at h
     · simp only [Option.some.injEq, Prod.mk.injEq] at h; obtain ⟨rfl, rfl⟩ := h; simp
     · cases h
   · simp only [Option.some.injEq, Prod.mk.injEq] at h; obtain ⟨rfl, rfl⟩ := h; simp
 
-/-- the id allocated by `instance` / `nocache` is new: `g.next` -/
+/-- for a key that does not resolve to a shared object, the id `instance` / `nocache` returns is
+new: `g.next` (or nothing: `None`, or the constructor raised) -/
 theorem fresh_alloc {t : Tid} {g g' : Glob} {th th' : Thread} (hpc : th.pc = .fAlloc)
+    (hns : kd = .gettz → (res th.key).slot? = none)
     (h : tstep kd res t g th = some (g', th')) : th'.tmp = none ∨ th'.tmp = some g.next := by
   simp only [tstep, hpc] at h
-  split at h <;> simp only [Option.some.injEq, Prod.mk.injEq] at h <;> obtain ⟨rfl, rfl⟩ := h <;> simp
+  split at h
+  · simp only [Option.some.injEq, Prod.mk.injEq] at h; obtain ⟨rfl, rfl⟩ := h; simp
+  · split at h
+    · simp only [Option.some.injEq, Prod.mk.injEq] at h; obtain ⟨rfl, rfl⟩ := h; simp
+    · split at h
+      · rename_i i heq
+        by_cases hk : kd = .gettz
+        · simp [hk, hns hk] at heq
+        · simp [hk] at heq
+      · simp only [Option.some.injEq, Prod.mk.injEq] at h; obtain ⟨rfl, rfl⟩ := h; simp
+
+/-- `gettz.nocache(name)` for a name that resolves to an existing shared object (the constant UTC,
+a vendored entry) returns THAT object and changes nothing: it is not a fresh constructor -/
+theorem shared_alloc {t : Tid} {g g' : Glob} {th th' : Thread} {sl : Nat} {i : Id} (hpc : th.pc = .fAlloc)
+    (hs : res th.key = .shared sl) (hl : g.shared.lookup sl = some i)
+    (h : tstep .gettz res t g th = some (g', th')) : th'.tmp = some i ∧ th'.pc = .fRet ∧ g' = g := by
+  simp only [tstep, hpc, hs, reduceCtorEq, if_false, and_false, Res.slot?, Option.bind_some, hl, if_true] at h
+  simp only [Option.some.injEq, Prod.mk.injEq] at h
+  obtain ⟨rfl, rfl⟩ := h
+  simp
 
 /-- `set_cache_size` (pcs sAcq … sRel) changes only the strong cache, its size and the lock -/
 theorem setsize_frame {t : Tid} {g g' : Glob} {th th' : Thread}
